@@ -2,6 +2,10 @@
 EXTENDS CovEffect
 MCInitSets == {<<0>>, <<0, 2>>, <<0, 1, 3>>, <<0, 2, 4>>}
 MCInitSmall == {<<0>>, <<0, 2>>}
+\* initial lists of 4, 5 and 6 breakpoints (the quantifier allows 1-6), one of them with a repeated breakpoint
+MCInitLong == {<<0, 1, 2, 3>>, <<0, 2, 2, 5>>, <<0, 1, 2, 4, 6>>, <<0, 1, 2, 3, 4, 6>>}
+\* every initial length 1..6 on the grid {0..8}/8 (simulation: histories of 6 edits)
+MCInitSim == {<<0>>, <<0, 4>>, <<0, 2, 8>>, <<0, 1, 5, 8>>, <<0, 4, 4, 8>>, <<0, 2, 3, 6, 7>>, <<0, 1, 3, 4, 6, 8>>}
 SlopeSet == {-1, 0, 2}
 SlopeSmall == {-1, 2}
 \* `frozen` never changes under Sharing = "copy" (checked by FrozenUntouched on every transition), so its
